@@ -61,13 +61,23 @@ func MapKeys[K ordered, V any](m map[K]V, site string) []K {
 		multi[site]++
 		mu.Unlock()
 	}
-	if mode.Load() == Reversed {
+	md := mode.Load()
+	if h := OrderHook; h != nil {
+		if hm, ok := h(site); ok {
+			md = hm
+		}
+	}
+	if md == Reversed {
 		sort.Slice(keys, func(i, j int) bool { return keys[i] > keys[j] })
 	} else {
 		sort.Slice(keys, func(i, j int) bool { return keys[i] < keys[j] })
 	}
 	return keys
 }
+
+// OrderHook, if non-nil, may choose the order of one iteration (it runs in the iterating goroutine); the harness uses
+// it to give one caller's ranges an order of their own (two clients that name the same datatypes in opposite orders).
+var OrderHook func(site string) (int32, bool)
 
 // GoHook, if non-nil, is called at the start of every goroutine spawned by instrumented orda code
 // (the schedule explorer parks the new goroutine there).
